@@ -201,6 +201,30 @@ def fam_hex_escape(nhex):
     return build
 
 
+def fam_long_exponent(ndig):
+    """digit 'e' [sign] digits{ndig}: exponents whose value leaves every machine integer"""
+    def build(ex):
+        sign = lexskel.char_var(ex, "c1")
+        digs = [lexskel.char_var(ex, "c%d" % (i + 2)) for i in range(ndig)]
+        first = lexskel.char_var(ex, "c0")
+        ex.ctx.add(z3.And(first >= 48, first <= 57), z3.Or(sign == 43, sign == 45, z3.And(sign >= 48, sign <= 57)))
+        for d in digs:
+            ex.ctx.add(z3.And(d >= 48, d <= 57))
+        chars = [first, z3.IntVal(101), sign] + digs
+        return chars, len(chars)
+    return build
+
+
+def fam_char_literal():
+    """'#' '\\' followed by two arbitrary characters (all Unicode), then the end: character literals and what follows them"""
+    def build(ex):
+        chars = [z3.IntVal(35), z3.IntVal(92)] + [lexskel.char_var(ex, "c%d" % i) for i in range(2)]
+        ln = z3.Int("len")
+        ex.ctx.add(ln >= 2, ln <= 4)
+        return chars, ln
+    return build
+
+
 def fam_real(tail, body=5):
     """texts over the characters of real literals: digits, sign, '.', 'e', plus `tail` arbitrary characters at the end"""
     def build(ex):
@@ -221,6 +245,8 @@ def run(chk):
     chk.bounds = {"all texts": "every text of <= %d characters over ALL Unicode scalar values (the lexer's own branches split the classes)" % N,
                   "digit runs": "[sign] 1..11 digits + <= 1 further character; 1..3 digits '/' 0..11 digits + <= 1 further character; sign 10 digits '/' 1..2 digits + <= 1 further character; texts of <= 5 characters over digits/sign/./e + <= 1 further character",
                   "long tokens": "'|' followed by 0..%d letters (quick: '\"' or nothing followed by 0, 1, 7, 8, 15, 16, 23, 24, 31, 32 letters; thorough: every count up to 69 for all three), then two arbitrary characters (all Unicode), then the end" % (69 if thorough else 33),
+                  "long exponents": "a digit, e, a sign or digit, then 9, 10 or 11 digits (thorough: also 19, 20)",
+                  "character literals": "#\\ followed by <= 2 arbitrary characters (all Unicode)",
                   "hexadecimal escapes": "a string consisting of one \\x escape with 1..6 arbitrary hexadecimal digits",
                   "stages": "Lexer::next until the end of the text, then Interpreter::eval_primitive on every literal token",
                   "literal conversion unit": "Interpreter::eval_primitive from every Integer(i32), Rational(i32, non-zero u32), Boolean and Character token; loops unrolled 8 times"}
@@ -234,6 +260,9 @@ def run(chk):
     chk.step("integer literals", run_family, chk, "Lexer on [sign] digits{1..11} + one more character", fam_digits(11, 1), 4)
     chk.step("ratio literals", run_family, chk, "Lexer on digits{1..3} '/' digits{0..11} + one more character", fam_ratio(3, 11, 1), 4)
     chk.step("all texts", run_family, chk, "Lexer::next over every text of <= %d characters, then eval_primitive" % N, fam_all(N), N + 1)
+    chk.step("character literals", run_family, chk, "Lexer on #\\ followed by <= 2 arbitrary characters", fam_char_literal(), 4)
+    for nd in (9, 10, 11) + ((19, 20) if thorough else ()):
+        chk.step("long exponent, %d digits" % nd, run_family, chk, "Lexer on digit e [sign] digits{%d}" % nd, fam_long_exponent(nd), 3, 30)
     for nh in range(1, 7):
         chk.step("hexadecimal string escapes, %d digits" % nh, run_family, chk, "Lexer on a string with a \\x escape of %d hexadecimal digits" % nh, fam_hex_escape(nh), 3)
     for opener in ("|", '"', ""):
